@@ -9,6 +9,12 @@
 // (scan.l). The reference itself is validated against a real in-process DuckDB on every string that has a
 // shape DuckDB can execute (SELECT <literal> [alias]) and, up to a smaller length, on every string for
 // "unterminated ..." agreement. A reference/DuckDB disagreement is a harness error (exit 2), never a VIOLATION.
+//
+// Second input space (multi.go): statement templates with 2-4 slots (select-list aliases, FROM, db.table,
+// GROUP BY / ORDER BY, CTE name, JOIN ... USING, adjacent tokens, tokens inside comments) filled with every
+// combination of complete quoted tokens chosen for how they relate to EACH OTHER: byte-equal repeats, case
+// variants, prefix/suffix variants, identifier vs literal with the same content, empty and escaped-quote
+// forms. Same oracles, all evaluated on every statement.
 package main
 
 import (
